@@ -141,9 +141,29 @@ func (r *rwWalker) text(e ast.Expr) string {
 	case *ast.BinaryExpr:
 		return r.text(x.X) + " " + x.Op.String() + " " + r.text(x.Y)
 	case *ast.CompositeLit:
+		if _, isArr := x.Type.(*ast.ArrayType); isArr && len(x.Elts) <= 4 {
+			// a small positional literal (a source-location path): spelled out
+			parts := make([]string, len(x.Elts))
+			for i, el := range x.Elts {
+				if _, kv := el.(*ast.KeyValueExpr); kv {
+					return exprString(x.Type) + "{…}"
+				}
+				parts[i] = r.text(el)
+			}
+			return exprString(x.Type) + "{" + strings.Join(parts, ",") + "}"
+		}
 		return trimPkg(exprString(x.Type)) + "{…}"
 	case *ast.BasicLit:
 		return x.Value
+	case *ast.SliceExpr:
+		lo, hi := "", ""
+		if x.Low != nil {
+			lo = r.text(x.Low)
+		}
+		if x.High != nil {
+			hi = r.text(x.High)
+		}
+		return r.text(x.X) + "[" + lo + ":" + hi + "]"
 	case *ast.IndexExpr:
 		return r.text(x.X) + "[" + r.text(x.Index) + "]"
 	case *ast.IndexListExpr:
@@ -209,13 +229,26 @@ func (r *rwWalker) copyOf(target string, v ast.Expr) {
 	r.copies = append(r.copies, copyFact{r.unit, target, r.firstTracked(v), r.text(v), g})
 }
 
-func (r *rwWalker) lit(cl *ast.CompositeLit) {
+func (r *rwWalker) lit(cl *ast.CompositeLit) { r.litAs(cl, "") }
+
+// litAs: implied is the element type of the enclosing slice literal for `{…}` elements without a type.
+func (r *rwWalker) litAs(cl *ast.CompositeLit, implied string) {
 	typ := ""
 	record := false
 	if cl.Type != nil {
 		typ, record = r.litType(exprString(cl.Type))
+	} else if implied != "" {
+		typ, record = r.litType(implied)
+	}
+	elemType := ""
+	if at, ok := cl.Type.(*ast.ArrayType); ok {
+		elemType = strings.TrimPrefix(exprString(at.Elt), "*")
 	}
 	for _, el := range cl.Elts {
+		if inner, ok := el.(*ast.CompositeLit); ok && inner.Type == nil && elemType != "" {
+			r.litAs(inner, elemType)
+			continue
+		}
 		kv, ok := el.(*ast.KeyValueExpr)
 		if !ok {
 			if record {
@@ -317,7 +350,11 @@ func (r *rwWalker) bind(name string, rhs ast.Expr) {
 		inner = u.X
 	}
 	if cl, ok := inner.(*ast.CompositeLit); ok && cl.Type != nil {
-		r.env[name] = trimPkg(exprString(cl.Type))
+		if _, isArr := cl.Type.(*ast.ArrayType); isArr {
+			r.env[name] = r.text(cl) // a small positional literal is spelled out
+		} else {
+			r.env[name] = trimPkg(exprString(cl.Type))
+		}
 		return
 	}
 	if call, ok := rhs.(*ast.CallExpr); ok {
@@ -390,6 +427,10 @@ func (r *rwWalker) stmt(s ast.Stmt) {
 			}
 			if strings.HasSuffix(fn, ".setJ5Ext") && len(call.Args) == 4 {
 				r.copyOf("setJ5Ext("+r.text(call.Args[2])+")", call.Args[3])
+			}
+			if r.rootMode && len(call.Args) == 2 && (strings.HasSuffix(fn, ".comment") || strings.HasSuffix(fn, ".addValue")) {
+				// `x.comment(path, description)`, `eb.addValue(number, option)`
+				r.copyOf(trimPkg(fn)+"("+r.text(call.Args[0])+")", call.Args[1])
 			}
 		}
 		r.expr(x.X)
@@ -639,6 +680,9 @@ func newWalker(reader bool) *rwWalker {
 					return trimPkg(t), true
 				}
 			}
+			if r.rootMode && (t == "descriptorpb.EnumValueDescriptorProto" || t == "descriptorpb.EnumDescriptorProto" || t == "enumBuilder") {
+				return trimPkg(t), true
+			}
 			return trimPkg(t), false
 		}
 	}
@@ -707,13 +751,25 @@ func extractRules(w *strings.Builder) error {
 	wroot.rootMode = true
 	for _, d := range cf.Decls {
 		if fd, ok := d.(*ast.FuncDecl); ok && fd.Body != nil {
-			if n := recvName(fd); n == "conversionVisitor.visitObjectNode" || n == "conversionVisitor.visitOneofNode" {
+			if n := recvName(fd); n == "conversionVisitor.visitObjectNode" || n == "conversionVisitor.visitOneofNode" || n == "conversionVisitor.visitEnumNode" {
 				wroot.function(fd, nil)
 			}
 		}
 	}
-	if len(wroot.units) != 2 {
-		return fmt.Errorf("conversion.go: visitObjectNode / visitOneofNode not found")
+	if len(wroot.units) != 3 {
+		return fmt.Errorf("conversion.go: visitObjectNode / visitOneofNode / visitEnumNode not found")
+	}
+	_, ef, err := parseFile("internal/j5s/j5convert/enum.go")
+	if err != nil {
+		return err
+	}
+	for _, d := range ef.Decls {
+		if fd, ok := d.(*ast.FuncDecl); ok && fd.Body != nil && recvName(fd) == "enumBuilder.addValue" {
+			wroot.function(fd, nil)
+		}
+	}
+	if len(wroot.units) != 4 {
+		return fmt.Errorf("enum.go: enumBuilder.addValue not found")
 	}
 
 	_, rf, err := parseFile("lib/j5schema/schema_from_proto.go")
